@@ -87,13 +87,33 @@ def res(r, okf) -> str:
     return f'(Err {val})' if not val.startswith('UNMODELLED_') else '(Err UnmodelledPythonException)'
 
 
+DETACH_TYPES = True
+
+
 def build_circuit(d: dict):
     """rebuild a cirbo Circuit having exactly the dumped internal state"""
+    import copy
+    import zlib
     from cirbo.core.circuit import Circuit, gate
     from cirbo.core.circuit.circuit import Block
     c = Circuit()
+    # For a deterministic third of the circuits the GateType objects are EQUAL to but NOT IDENTICAL with the
+    # module constants (gate.AND, ...): what copy.deepcopy (used by minimize_subcircuits for its result) and a
+    # pickle round trip (results coming back from the pebble process pool) produce.  The public API cannot tell
+    # such a circuit from the original, so every property must hold for it as well; code that compares gate
+    # types with `is` breaks exactly there.
+    detach = DETACH_TYPES and zlib.crc32(repr(d['gates']).encode()) % 3 == 0
+    types = {}
+
+    def gtype(t):
+        if not detach:
+            return getattr(gate, t)
+        if t not in types:
+            types[t] = copy.deepcopy(getattr(gate, t))
+            assert types[t] is not getattr(gate, t) and types[t] == getattr(gate, t)
+        return types[t]
     for k, t, ops in d['gates']:
-        c._gates[k] = gate.Gate(k, getattr(gate, t), tuple(ops))
+        c._gates[k] = gate.Gate(k, gtype(t), tuple(ops))
     c._inputs = list(d['inputs'])
     c._outputs = list(d['outputs'])
     c._gate_to_users = {k: list(v) for k, v in d['users']}
